@@ -19,7 +19,7 @@ structure TbOK (tb : Tables) : Prop where
 structure Hyp (cfg : Cfg) (sh : NumShow) : Prop where
   tb : TbOK cfg.tb
   int_rt : ∀ n : Nat, n < 2 ^ 63 → cfg.num (sh.showInt n) = some (.int n)
-  float_rt : ∀ b : UInt64, cfg.num (sh.showFloat b) = some (.float b)
+  float_rt : ∀ b : UInt64, floatLit b = true → cfg.num (sh.showFloat b) = some (.float b)
 
 variable (cfg : Cfg) (sh : NumShow) (pc : ParenChoice)
 
